@@ -240,7 +240,11 @@ func tableSequence(o *Out, r *rand.Rand, seqNo, nOps int) {
 	var recs []tabRec
 	newRec := func(idIdx int) int {
 		var ip net.IP
-		switch c := r.Intn(12); {
+		c := r.Intn(12)
+		if seqNo%4 == 3 && c < 7 && r.Intn(4) != 0 {
+			c = 7 // a LAN-heavy history: the /24 limits do not apply, so full buckets collect more than ten newcomers
+		}
+		switch {
 		case c < 7:
 			sn := subnets[r.Intn(len(subnets))]
 			ip = net.ParseIP(fmt.Sprintf("%s.%d", sn, 1+r.Intn(250))).To4()
